@@ -704,7 +704,7 @@ def cb(facts, tier):
                  f"{len(facts.corpus_meta.get('types', []))} corpus definitions and {len(facts.corpus_meta.get('traits', [])) or 6} traits compile")
 
 
-@rule("P7", ["C04", "C03", "C01"], floor=8, doc="the Packed decision is taken afresh, for the file version at hand, wherever it guards a raw copy: no function of "
+@rule("P7", ["C04", "C03", "C01"], floor=3, doc="the Packed decision is taken afresh, for the file version at hand, wherever it guards a raw copy: no function of "
       "the library that asks repr_c_optimization_safe touches a static, a thread-local or a cache (a memoised answer is the answer for "
       "the version of the first call, not of this file)")
 def p7(facts, tier):
